@@ -70,7 +70,8 @@ func runHistory(script string) string {
 						res = "panic:" + classify(v)
 					}
 				}()
-				c, err := byName[f[1]].alg.FindSequence(slots[s])
+				cfgc, _ := lookupAlg(f[1])
+				c, err := cfgc.alg.FindSequence(slots[s])
 				if err != nil {
 					if err.Error() == "failed to find sequence" {
 						return "err:noseq"
@@ -131,7 +132,7 @@ func runHistory(script string) string {
 		if !k.ok {
 			continue
 		}
-		heur := strings.HasPrefix(k.alg, "heuristic")
+		heur := strings.HasPrefix(k.alg, "heuristic") || strings.HasPrefix(k.alg, "T=")
 		local := map[*big.Int]bool{}
 		for _, x := range k.chain {
 			if local[x] && share == 0 {
@@ -229,7 +230,7 @@ func oracleHistory(script, res string) string {
 			}
 			r := strings.Split(calls[n], ":")
 			n++
-			cfg := byName[f[1]]
+			cfg, _ := lookupAlg(f[1])
 			dom := inDomain(slots[s])
 			switch r[0] {
 			case "ok":
@@ -311,7 +312,8 @@ func genHistories(tier string, r *lib.Rand, emit func(string)) {
 			names = append(names, c.alg.String())
 		}
 	}
-	small = names
+	// some nested compositions take part in the random histories
+	small = append(append([]string{}, names...), "T=U(U(H),D)", "T=U(H,U(A))", "T=U(U(H,D),A)", "T=U(U(H))", "T=U(U(),A)")
 	list := func(n, hi int) string {
 		ts := make([]*big.Int, n)
 		for i := range ts {
@@ -441,7 +443,7 @@ func neighbours(c string, r *lib.Rand, emit func(string)) {
 		limit := int64(0)
 		if f[1] == "continued_fractions(total)" {
 			limit = 56
-		} else if cfg, ok := byName[f[1]]; ok && !cfg.log {
+		} else if cfg, ok := lookupAlg(f[1]); ok && !cfg.log {
 			limit = 400
 		}
 		for _, l := range listNeighbours(lib.ParseHexList(f[2]), r, limit) {
